@@ -150,6 +150,17 @@ def plan(tier):
         unit('fixed_void', 'h_sig_void', fx, 'signal<void>: the same hand-written histories (call flavours: no argument / bool rvalue / bool lvalue)',
              concrete=CONCRETE_VOID),
     ]
+    K = 14
+    vc = [[pr, pre, k] for pr in range(7) for pre in range(3) for k in range(K)]
+    units.append(dict(engine='e1', name='sig_mt', tu='C15conc.cpp', entry='h_sig_conc', unwind=6, timeout=300, vectors=vc, cbmc_extra=EXTRA,
+                      concrete=[([pr, pre, k], [11, 22]) for pr in range(7) for pre, k in ((0, 0), (1, 2), (2, 5), (2, 13))],
+                      space='two threads on one signal<int>, interleaved at atomic-instruction granularity: [pair (collector call || coroutine subscribes, collector call || connect(callback), '
+                            'coroutine subscribes || collector call, connect || collector call, last handle destroyed || coroutine subscribes, coroutine subscribes || last handle destroyed, '
+                            'coroutine subscribes || connect), listeners already waiting (none / a coroutine / a coroutine and a callback), k = position of the atomic instruction of the first operation '
+                            'in front of which the second thread\'s complete operation lands (1..%d; beyond the last one: after it)]; then a second emission and the destruction of all handles; full product' % K,
+                      data='both emitted values: unconstrained, distinct 32-bit ints (symbolic)',
+                      bounds='two concurrent operations, one preemption: the second operation runs as a whole inside a window of the first',
+                      outside='interleavings that split both operations; two collector calls at the same time (documented as not MT-safe); more than two threads'))
     if not quick:
         hv = histories([LINF, C1, CINF, LDEF, EV, DUP_COL, DROP_LOW], 3, 1, interesting)
         units.append(unit('hist_void', 'h_sig_void', [vec(rotate_kinds(h, i % 3)) for i, h in enumerate(hv)],
